@@ -24,6 +24,8 @@ type SolveResult struct {
 	Agree    []string          // solvers that answered unsat (thorough)
 	SMTBytes int
 	AllOut   map[string]string
+	VC       *VC
+	Mode     int // float abstraction mode of the deciding query
 }
 
 type solverSpec struct {
@@ -123,7 +125,7 @@ func solveObligation(vc *VC, o *Obligation, dir string, idx int, timeoutS, seed 
 
 func solveOnce(vc *VC, o *Obligation, dir string, idx int, timeoutS, seed int, needAgree int, only string, abstractFloats int) *SolveResult {
 	smt := vc.smtForOpt(o, true, abstractFloats)
-	res := &SolveResult{Obl: o, SMTBytes: len(smt), AllOut: map[string]string{}}
+	res := &SolveResult{Obl: o, SMTBytes: len(smt), AllOut: map[string]string{}, VC: vc, Mode: abstractFloats}
 	if len(smt) > maxSMTBytes {
 		res.Status = "failed-unknown"
 		res.Output = fmt.Sprintf("VC size %d exceeds cap %d", len(smt), maxSMTBytes)
@@ -167,21 +169,61 @@ func solveOnce(vc *VC, o *Obligation, dir string, idx int, timeoutS, seed int, n
 			return res
 		}
 	}
-	ch := make(chan solverAnswer, len(solvers))
-	n := 0
+	// stage 2: a portfolio - the three solvers plus z3-new with further random seeds. Quantified obligations are sensitive to
+	// the seed (the same query is `unsat` in a second with one seed and times out with another), so one seed is not a verdict.
+	type entry struct {
+		sp   solverSpec
+		seed int
+	}
+	var race []entry
 	for _, sp := range solvers {
 		if only != "" && sp.name != only {
 			continue
 		}
-		n++
-		go func(sp solverSpec) { ch <- runSolver(ctx, sp, file, timeoutS, seed) }(sp)
+		race = append(race, entry{sp, seed})
+	}
+	if only == "" {
+		extra := 3
+		if vc.hasFloatDefs(o) && abstractFloats != 1 {
+			extra = 1
+		}
+		for k := 1; k <= extra; k++ {
+			race = append(race, entry{solverSpec{fmt.Sprintf("z3-new~%d", k), solvers[0].args}, seed + k})
+		}
+	}
+	ch := make(chan solverAnswer, len(race))
+	n := len(race)
+	for _, e := range race {
+		go func(e entry) {
+			a := runSolver(ctx, e.sp, file, timeoutS, e.seed)
+			a.solver = e.sp.name
+			ch <- a
+		}(e)
+	}
+	families := func(names []string) int {
+		f := map[string]bool{}
+		for _, nm := range names {
+			if i := strings.IndexByte(nm, '~'); i >= 0 {
+				nm = nm[:i]
+			}
+			f[nm] = true
+		}
+		return len(f)
 	}
 	start := time.Now()
 	var unsats []string
 	var last solverAnswer
 	decided := false
+	var grace <-chan time.Time
+loop:
 	for i := 0; i < n; i++ {
-		a := <-ch
+		var a solverAnswer
+		select {
+		case a = <-ch:
+		case <-grace:
+			// thorough: a second solver family did not confirm within the grace period after the first proof
+			break loop
+		}
 		res.AllOut[a.solver] = a.ans
 		last = a
 		if a.ans == "unsat" {
@@ -189,8 +231,15 @@ func solveOnce(vc *VC, o *Obligation, dir string, idx int, timeoutS, seed int, n
 			if !decided {
 				res.Solver, res.Output, res.TimeS = a.solver, a.out, a.t
 				decided = true
+				if needAgree > 1 {
+					g := 3 * time.Since(start)
+					if g < 10*time.Second {
+						g = 10 * time.Second
+					}
+					grace = time.After(g)
+				}
 			}
-			if len(unsats) >= needAgree || o.Cover {
+			if families(unsats) >= needAgree || o.Cover {
 				break
 			}
 			continue
@@ -220,7 +269,7 @@ func solveOnce(vc *VC, o *Obligation, dir string, idx int, timeoutS, seed int, n
 	case o.Cover:
 		res.Status = "cover-unknown"
 		res.Output = last.out
-	case len(unsats) >= needAgree || (len(unsats) > 0 && needAgree > 1 && n < needAgree):
+	case families(unsats) >= needAgree || (len(unsats) > 0 && needAgree > 1 && n < needAgree):
 		res.Status = "discharged"
 	case len(unsats) > 0:
 		// thorough wants agreement, but only one solver finished: still a proof by that solver
@@ -332,4 +381,34 @@ func solveAll(jobs []job, timeoutFor func(*Obligation) int, seed int, needAgree 
 	}
 	run(floaty, fw)
 	return out
+}
+
+// fullModel: the obligation solved once more with the definitions of every observed term kept (the normal query prunes
+// them by cone of influence, so their values would be missing); only a `sat` answer is used.
+func fullModel(r *SolveResult, timeoutS int) map[string]string {
+	if r.VC == nil {
+		return nil
+	}
+	o2 := *r.Obl
+	o2.Observe = append([]Observation(nil), r.Obl.Observe...)
+	for _, lit := range r.VC.w.strOrder {
+		o2.Observe = append(o2.Observe, Observation{Label: "strlit|" + lit, T: r.VC.w.strLit(lit)})
+	}
+	r.VC.obsCone = true
+	smt := r.VC.smtForOpt(&o2, true, r.Mode)
+	r.VC.obsCone = false
+	dir, err := os.MkdirTemp("", "hv-fullmodel-")
+	if err != nil {
+		return nil
+	}
+	defer os.RemoveAll(dir)
+	file := filepath.Join(dir, "q.smt2")
+	if os.WriteFile(file, []byte(smt), 0o644) != nil {
+		return nil
+	}
+	a := runSolver(context.Background(), solvers[0], file, timeoutS, 0)
+	if a.ans != "sat" {
+		return nil
+	}
+	return parseModel(&o2, a.out)
 }
